@@ -738,7 +738,35 @@ def text_table(ctx, rule):
         ('iframe:-soup-contains(inner)', []), ('body:-soup-contains(abcdef)', ['body']),
     ]
     rows = [(s, [('body' if w == 'body' else w) for w in want]) for s, want in rows]
-    _rows_table(ctx, rule, 'text', [('text nodes, comments, CDATA, iframe', 'html', T, None, rows)], 'soupsieve/css_match.py (match_contains / match_empty)',
+    # every short needle and needle list against text that is split over five nodes: a needle counts when it occurs in the joined text
+    # (descendants) / in one child text node (own) - whatever the other needles of the list are
+    pieces = ['ab', 'cd', 'ef', 'g', 'hij']
+    TS = [('html', {}, [('body', {}, [('div', {'id': 's', '_label': 's'}, ['ab', ('span', {}, ['cd']), 'ef', ('b', {}, [('i', {}, ['g'])]), 'hij'])])])]
+    joined = ''.join(pieces)
+    own = ['ab', 'ef', 'hij']
+    subs = sorted({joined[i:j] for i in range(len(joined)) for j in range(i + 1, min(len(joined), i + 6) + 1)}, key=lambda t: (len(t), t))
+    negs = ['x', 'ba', 'abd', 'acd', 'jk', 'abcdeg', 'bcdfe']
+    rows_s = []
+    for nd in subs[::2] + negs:
+        rows_s.append((f'#s:-soup-contains({nd})', ['s'] if nd in joined else []))
+        rows_s.append((f'#s:-soup-contains-own({nd})', ['s'] if any(nd in o for o in own) else []))
+    lists = [(a, b) for a in negs[:4] + ['j', 'ab'] for b in ('bcdefg', 'defgh', 'fgh', 'ghi', 'bc', 'abcdeg', 'cdefghi')] + [(b, a) for a in ('x', 'jk') for b in ('bcdefg', 'fghij')]
+    for a, b in lists:
+        rows_s.append((f'#s:-soup-contains({a}, {b})', ['s'] if a in joined or b in joined else []))
+        rows_s.append((f'#s:-soup-contains-own({a}, {b})', ['s'] if any(a in o or b in o for o in own) else []))
+    rows_s.append(('#s:-soup-contains(x, y, cdefgh)', ['s']))
+    rows_s.append(('#s:-soup-contains(bcdefg):-soup-contains(x, hij)', ['s']))
+    # an element that merely has the local name iframe, in a foreign namespace of a namespace-aware tree, is not an HTML iframe: its
+    # text is content like any other
+    TF = [('html', {}, [('body', {}, [('div', {'id': 'f', '_label': 'f'}, ['out', ('iframe', {'_ns': 'urn:other', '_label': 'fi'}, ['foreign', ('p', {'_label': 'fp'}, ['deep'])]),
+                                                                          ('iframe', {'_label': 'hi'}, [('html', {}, [('body', {}, ['inner'])])])])])])]
+    rows_f = [('#f:-soup-contains(foreign)', ['f']), ('#f:-soup-contains(deep)', ['f']), ('#f:-soup-contains(outforeigndeep)', ['f']), ('#f:-soup-contains(inner)', []),
+              ('#f > *:-soup-contains-own(foreign)', ['fi']), ('#f *:-soup-contains(deep)', ['fi', 'fp']), ('#f > :empty', [])]
+    _rows_table(ctx, rule, 'text', [('text nodes, comments, CDATA, iframe', 'html', T, None, rows),
+                                    ('text split over five nodes of three depths', 'html', TS, None, rows_s),
+                                    ('an element named iframe in a foreign namespace (html5lib tree)', 'html5', TF, None, rows_f),
+                                    ('an element named iframe in a foreign namespace (XHTML tree)', 'xhtml', TF, None, rows_f)],
+                'soupsieve/css_match.py (match_contains / match_empty)',
                 'the definition (text nodes among the descendants in document order / one text node that is a direct child; comments, CDATA, '
                 'processing instructions and iframe content are not text)')
 
@@ -862,8 +890,13 @@ def state_pipeline_table(ctx, rule):
         ('input', {'type': 'radio', 'name': 'free', '_label': 'ofree1'}, []), ('input', {'type': 'radio', 'name': 'free', '_label': 'ofree2'}, []),
         ('iframe', {}, [('html', {}, [('body', {}, [('input', {'type': 'radio', 'name': 'free', 'checked': '', '_label': 'ifree1'}, []),
                                                     ('input', {'type': 'radio', 'name': 'free', '_label': 'ifree2'}, [])])])]),
-        ('p', {'_label': 'op'}, [])])])]
-    rows_i = [(':default', ['irad', 'osub', 'ifree1']), (':indeterminate', ['orad', 'ofree1', 'ofree2']), ('input[name=free]:not(:indeterminate)', ['ifree1', 'ifree2']), ('p:dir(rtl)', ['op']), ('p:dir(ltr)', ['ip']), ('html:dir(ltr)', ['root', 'iroot', 'html', 'html']),
+        ('p', {'_label': 'op'}, []),
+        # a disabled fieldset of the outer document does not disable the controls of a document nested in it, at any depth
+        ('fieldset', {'disabled': '', '_label': 'ofs'}, [('input', {'type': 'text', '_label': 'fsin'}, []), ('iframe', {}, [('html', {}, [('body', {}, [
+            ('input', {'type': 'text', '_label': 'deepin'}, []), ('section', {}, [('select', {'_label': 'deepsel'}, [])])])])])])])])]
+    rows_i = [('fieldset :disabled', ['fsin']), ('fieldset :enabled', ['deepin', 'deepsel']), (':disabled', ['ofs', 'fsin']),
+              ('fieldset :optional', ['fsin', 'deepin', 'deepsel']), ('fieldset :read-write', ['deepin']),
+              (':default', ['irad', 'osub', 'ifree1']), (':indeterminate', ['orad', 'ofree1', 'ofree2']), ('input[name=free]:not(:indeterminate)', ['ifree1', 'ifree2']), ('p:dir(rtl)', ['op']), ('p:dir(ltr)', ['ip']), ('html:dir(ltr)', ['root', 'iroot', 'html', 'html', 'html']),
               ('div:dir(ltr)', ['auto']), ('p:lang(fr)', ['op']), ('html:lang(fr)', ['root']), ('form input:checked', ['irad']), ('form :root', ['iroot'])]
     # look-alike forms: two forms with identical markup are two forms (bs4 tags compare equal when their markup is equal)
     TL = [('html', {}, [('body', {}, [
